@@ -58,6 +58,7 @@ MANIFEST = {
         " Also decided: no function of these modules accumulates into a mutable default argument."
         " Also decided: no for-loop variable of these modules is read after its loop (statement left one indentation level too shallow)."
         " Also decided: no attribute of any object is bound to instance data in one method and modified in place through that attribute in another; the Taillard reader builds one job per line (pooled numbers cut by computed bounds are reported); no per-job / per-operation view is accumulated over operations_by_machine."
+        " Also decided: the dictionary writer / reader pair and the Operation constructor do not reorder or de-duplicate machine lists; a key-by-key reader of a schedule's embedded instance reads every key to_dict writes."
     ),
     "note": "Transformation.__call__ renaming an instance that apply returned unchanged is reported as an observation (outside C14's list of actors). Alias model as in C05.",
     "technique": "typed who-may-write sweep with interprocedural alias analysis + dictionary key agreement + loop progress (must-dispatch-or-raise) path check",
@@ -377,8 +378,46 @@ def run(ctx):
     from .common import check_per_machine_double_count
 
     ctx.attempt(check_per_machine_double_count, ctx, "R14.k", (inst.module.name,), "the instance's derived views")
+    ctx.attempt(_machine_lists_kept, ctx, inst, op)
     # ---------------------------------------------------------------- R14.j
     ctx.attempt(_taillard_reader, ctx, inst, op)
+
+
+def _machine_lists_kept(ctx, inst, op):
+    """R14.l - the dictionary writer / reader pair and the Operation
+    constructor keep the machine alternatives of an operation as given: no
+    sort, no set(), no reversal on the way (an operation's `machines` list is
+    ordered content: `[2, 0]` and `[0, 2]` are different operations for
+    equality, and the round trip must reproduce the same operations)."""
+    chk = ctx.chk
+    chk.rule("R14.l", "from_matrices / to_dict / the matrix views / Operation.__init__ do not reorder or de-duplicate machine lists")
+    units = [(inst, n) for n in ("from_matrices", "to_dict", "machines_matrix", "durations_matrix")] + [(op, "__init__")]
+    n = 0
+    for c, name in units:
+        m = ctx.repo.method(c, name)
+        if m is None:
+            continue
+        n += 1
+        f = ctx.norm.flat(m, depth=3)
+        hits = [(f, nd, w) for nd, w in reorder_ops(f.node)]
+        # private helpers it calls from places the normaliser does not write out (inside comprehensions)
+        for g, rc, via in ctx.effects.closure(m, c, max_depth=2):
+            if g is m or isinstance(g.node, ast.Lambda) or not g.name.startswith("_") or g.name.startswith("__"):
+                continue
+            if g.module is not m.module:
+                continue
+            hits += [(g, nd, w) for nd, w in reorder_ops(g.node)]
+        if hits:
+            f, node, what = hits[0]
+            chk.violation(
+                "R14.l", m, node,
+                f"{c.name}.{name} passes operation data through {what} (`{ast.unparse(node)[:70]}`): the order (or multiplicity) of an "
+                "operation's machine alternatives / of the matrix rows is content - after the round trip the operations differ",
+                loc=f.loc(node),
+            )
+        else:
+            chk.ok("R14.l", m.qualname, m.loc(), "no reordering operator")
+    chk.floor("R14.l", n, 4, "serialisation units")
 
 
 def _taillard_reader(ctx, inst, op):
